@@ -68,3 +68,29 @@ Theorem C17_closed_connection_is_gone : forall cfg cut ae k y who y' msgs,
   wsys_step cfg cut ae k y who CClose = Ok (y', msgs) -> msgs = [] /\ find_conn who (y_conns y') = None.
 Proof. exact closed_connection_is_gone. Qed.
 Print Assumptions C17_closed_connection_is_gone.
+
+(* ---- closed connections leave no peers (mechanism) ---- *)
+From Aquatic Require Import WsCloseFacts.
+
+(* closing runs the clean-up record: afterwards, in the swarm worker that owns each recorded
+   torrent, the recorded peer id is gone; torrents the record does not name, and the other
+   address family, are untouched; no swarm worker fails *)
+Theorem C17_close_clears_every_recorded_entry : forall k v6, (0 < k)%nat -> forall ann ws ws',
+  length ws = k -> all_ok k ws -> NoDup (map fst ann) -> close_all k ws v6 ann = Ok ws' ->
+  length ws' = k /\ all_ok k ws'
+  /\ (forall h pid t', In (h, pid) ann -> aget N.eqb h (wfam (yget ws' (wroute k h)) v6) = Some t' -> aget N.eqb pid (wt_peers t') = None)
+  /\ (forall h, ~ In h (map fst ann) -> forall j f, aget N.eqb h (wfam (yget ws' j) f) = aget N.eqb h (wfam (yget ws j) f))
+  /\ (forall j h, aget N.eqb h (wfam (yget ws' j) (negb v6)) = aget N.eqb h (wfam (yget ws j) (negb v6))).
+Proof. exact close_all_clears. Qed.
+Print Assumptions C17_close_clears_every_recorded_entry.
+
+(* ... and the record names every torrent the connection announced without stopping it, under
+   the one peer id it may use there *)
+Theorem C17_announce_is_recorded : forall cfg cut ae k y who c rq y' msgs,
+  find_conn who (y_conns y) = Some c -> sc_key c = who ->
+  (aget N.eqb (q_hash rq) (sc_announced c) = None \/ aget N.eqb (q_hash rq) (sc_announced c) = Some (q_pid rq)) ->
+  wsys_step cfg cut ae k y who (CAnnounce rq) = Ok (y', msgs) ->
+  exists c', find_conn who (y_conns y') = Some c' /\ sc_key c' = who /\ sc_v6 c' = sc_v6 c
+    /\ (q_stopped rq = false -> aget N.eqb (q_hash rq) (sc_announced c') = Some (q_pid rq)).
+Proof. exact announce_is_recorded. Qed.
+Print Assumptions C17_announce_is_recorded.
